@@ -36,9 +36,9 @@ theorem compose_incident_order (g : Graph) (x : Int) (sub : Graph)
     (hdisj : contiguous g = true ∧ contiguous sub = true) :
     incOfCompose g x sub = incSpec g x := by
   have d : E.Dom0 g x sub :=
-    ⟨E.WF_of_wf hg, by have := hdisj.1; unfold contiguous at this; exact beq_iff_eq.mp this,
+    ⟨E.WF_of_wf hg, by have := hdisj.1; unfold contiguous at this; exact List.Perm.of_eq (beq_iff_eq.mp this),
       (E.hasNode_iff g x).mp hx, E.WF_of_wf hs,
-      by have := hdisj.2; unfold contiguous at this; exact beq_iff_eq.mp this⟩
+      by have := hdisj.2; unfold contiguous at this; exact List.Perm.of_eq (beq_iff_eq.mp this)⟩
   exact d.incident_order
 
 /-- T2+T3: the result has exactly the specified bond labels between any two new names -/
